@@ -162,7 +162,7 @@ func EncodeWithColor(code string, color barcode.ColorScheme) (barcode.BarcodeInt
 	var checkSum int
 	if len(code) == 7 || len(code) == 12 {
 		code += string(calcCheckNum(code))
-		checkSum = utils.RuneToInt(calcCheckNum(code))
+		checkSum = utils.RuneToInt(rune(code[len(code)-1]))
 	} else if len(code) == 8 || len(code) == 13 {
 		check := code[0 : len(code)-1]
 		check += string(calcCheckNum(check))
